@@ -265,10 +265,40 @@ def build_test(cfg):
             kw.update(bet=NonnegMean.agrapa, c_grapa_grow=cfg["grow"])
             if e == "agrapa":
                 kw.update(c_grapa_0=float(cfg["cg"]), c_grapa_max=float(cfg["cg"]))
+    late_g = None
     if m in ("KK", "KM", "KW"):
-        kw["g"] = float(cfg["g"])
+        # the padding is given to the constructor, or set on the object afterwards (as the library's own tests do)
+        _BUILT[0] += 1
+        if _BUILT[0] % 2:
+            kw["g"] = float(cfg["g"])
+        else:
+            late_g = float(cfg["g"])
+            if _BUILT[0] % 4 == 0:
+                kw["g"] = float(cfg["g"]) + 0.25
     kw.update(cfg["extra"])
-    return NonnegMean(test=test, **kw)
+    # the population bound, too, is given to the constructor or installed afterwards (Assertion.set_p_values and the
+    # margin setters assign test.u on an existing object): the test must work with the bound it carries when called
+    late_u = None
+    _BUILT[1] += 1
+    if m in ("ALPHA", "BETTING") and _BUILT[1] % 3 == 0:
+        late_u = kw["u"]
+        kw["u"] = kw["u"] * 2 if _BUILT[1] % 2 else 1.0
+    # ... and so is the sampling-order flag (the library's own tests flip it on an existing object)
+    late_ro = None
+    if _BUILT[1] % 4 == 1:
+        late_ro = kw["random_order"]
+        kw["random_order"] = not late_ro
+    obj = NonnegMean(test=test, **kw)
+    if late_ro is not None:
+        obj.random_order = late_ro
+    if late_g is not None:
+        obj.g = late_g
+    if late_u is not None:
+        obj.u = late_u
+    return obj
+
+
+_BUILT = [0, 0]
 
 
 def run_sample(tst, cfg, xs, buf=None):
